@@ -14,7 +14,6 @@ import SshAudit.Gen.Logic3
 import SshAudit.Lemmas.Py
 import SshAudit.Model.Gex
 import SshAudit.Model.Policy
-import SshAudit.Props.GenLogic2
 set_option linter.unusedSimpArgs false
 namespace SshAudit.GenLogic
 open SshAudit
